@@ -58,6 +58,42 @@ impl Process for Panicker {
     }
 }
 
+/// The deepest nesting of one-element tuples around a small integer that `erltf::decode` accepts, measured
+/// once on a fresh thread (so that nothing done elsewhere in this process can have influenced it).
+fn max_legal_depth() -> usize {
+    static DEPTH: std::sync::OnceLock<usize> = std::sync::OnceLock::new();
+    *DEPTH.get_or_init(|| {
+        std::thread::spawn(|| {
+            let accepts = |d: usize| {
+                let mut x = vec![131u8];
+                for _ in 0..d {
+                    x.extend_from_slice(&[104, 1]);
+                }
+                x.extend_from_slice(&[97, 7]);
+                erltf::decode(&x).is_ok()
+            };
+            let mut d = 1usize;
+            while d < 5000 && accepts(d + 1) {
+                d += 1;
+            }
+            d
+        })
+        .join()
+        .unwrap_or(64)
+    })
+}
+
+fn innermost_int(v: &Val) -> Option<i128> {
+    let mut cur = v;
+    loop {
+        match cur {
+            Val::Tuple(t) if t.len() == 1 => cur = &t[0],
+            Val::Int(i) => return i.to_i128(),
+            _ => return None,
+        }
+    }
+}
+
 fn pt(control: &Val, payload: Option<&Val>) -> Vec<u8> {
     let mut b = vec![112u8];
     b.extend(ref_encode_canonical(control).unwrap());
@@ -86,12 +122,15 @@ enum Fault {
     LinkControl,
     /// a message for a process whose handler has crashed
     CrashedRecipient,
+    /// frames whose payload is nested beyond the decoder's limit, each followed by a legal payload nested as
+    /// deep as the decoder accepts
+    OverDeepPayloads,
     Quiet,
 }
 
 const FAULTS: &[Fault] = &[
     Fault::Tick, Fault::UndecodableBody, Fault::BadMarker, Fault::ControlNotATuple, Fault::EmptyControlTuple, Fault::UnknownControlKind, Fault::UnknownPid,
-    Fault::UnknownName, Fault::ReplyToUnknownCall, Fault::TruncatedPayload, Fault::LinkControl, Fault::CrashedRecipient,
+    Fault::UnknownName, Fault::ReplyToUnknownCall, Fault::TruncatedPayload, Fault::LinkControl, Fault::CrashedRecipient, Fault::OverDeepPayloads,
 ];
 
 #[derive(Clone, Copy, Debug, PartialEq, Eq)]
@@ -366,6 +405,42 @@ async fn routing_and_faults(ctx: &Ctx, rng: &mut Rng, epmd: &net::EpmdTable, id:
                         let x = Val::Tuple(vec![Val::int(3), remote.clone(), pidval(&w.panicker), Val::atom("bye")]);
                         let _ = peer.write_frame4(&pt(&x, None)).await;
                     }
+                    Fault::OverDeepPayloads => {
+                        let legal = max_legal_depth();
+                        let c = Val::Tuple(vec![Val::int(2), Val::atom(""), pidval(&w.procs[0])]);
+                        let mut lost = 0usize;
+                        let pairs = 6 + rng.below(10);
+                        for i in 0..pairs {
+                            let mut junk = pt(&c, None);
+                            junk.push(131);
+                            for _ in 0..*rng.pick(&[legal + 1, legal + 2, 300, 1000]) {
+                                junk.extend_from_slice(&[104, 1]);
+                            }
+                            junk.extend_from_slice(&[97, 7]);
+                            let _ = peer.write_frame4(&junk).await;
+                            // the deepest payload the decoder accepts, carrying a number
+                            let marker = uid * 100 + i as i128;
+                            let mut good = pt(&c, None);
+                            good.push(131);
+                            for _ in 0..legal - 1 {
+                                good.extend_from_slice(&[104, 1]);
+                            }
+                            good.extend(crate::refmodel::encode::ref_encode_canonical(&Val::int(marker)).unwrap()[1..].iter());
+                            let _ = peer.write_frame4(&good).await;
+                            let ok = wait_for(&w.log, |l| l.iter().any(|e| matches!(e, Ev::Regular { body, .. } if innermost_int(body) == Some(marker))), 1500).await;
+                            if !ok {
+                                lost += 1;
+                            }
+                        }
+                        ctx.eval(pairs as u64);
+                        if lost > 0 {
+                            ctx.viol(
+                                "C19:route:deep-legal-payload-lost-after-over-deep-frames",
+                                "a well-formed message nested as deep as the decoder accepts was not delivered after frames nested beyond the limit had been dropped",
+                                json!({"scenario": id, "pairs": pairs, "legal_messages_lost": lost, "deepest_accepted_nesting": legal, "trace": trace}),
+                            );
+                        }
+                    }
                     Fault::Quiet => {}
                 }
                 ctx.class(&format!("fault/{:?}", f));
@@ -375,7 +450,12 @@ async fn routing_and_faults(ctx: &Ctx, rng: &mut Rng, epmd: &net::EpmdTable, id:
                 }
                 // the fault itself must not have produced any delivery besides the probe
                 let l = w.log.lock().unwrap();
-                let extra = l[before..].iter().filter(|e| !matches!(e, Ev::Regular { body: Val::Tuple(t), .. } if t.first() == Some(&Val::atom("probe")))).count();
+                let extra = l[before..]
+                    .iter()
+                    .filter(|e| !matches!(e, Ev::Regular { body: Val::Tuple(t), .. } if t.first() == Some(&Val::atom("probe"))))
+                    // the deep legal messages that belong to the OverDeepPayloads script are deliveries it asks for
+                    .filter(|e| !(f == Fault::OverDeepPayloads && matches!(e, Ev::Regular { body, .. } if innermost_int(body).is_some())))
+                    .count();
                 if extra > 0 {
                     ctx.viol(&format!("C19:route:delivery-from-fault:{:?}", f), "a frame for an unknown recipient / an ignorable frame caused a delivery", json!({"scenario": id, "extra_events": extra, "trace": trace}));
                 }
@@ -549,7 +629,7 @@ async fn quiet_period(ctx: &Ctx, epmd: &net::EpmdTable, id: usize, periods: usiz
 }
 
 pub fn run(ctx: &Ctx) {
-    ctx.rule("scenarios = scripted inbound histories over a real connection to a Node with three recording processes and one registered name: sends to pids and names, exit and monitor notifications, replies to outstanding remote calls, and after each fault (tick, undecodable body, wrong marker byte, control term that is not a tuple / empty tuple / unknown kind, unknown pid, unknown name, reply to an unknown call, truncated payload, link control, messages for a process whose handler has crashed) a probe message that must be delivered with the connection still registered; then the peer closes / ends the stream inside a frame / sends an over-long length and the connection must be deregistered within 5 s; plus bursts of 150..2600 frames (around the 1000-slot mailbox) for a process whose handler is gated or slow, each of which must be delivered exactly once; plus quiet periods of 12.5 s (longer than the node's fixed 10 s read timeout) each followed by a tick (so a tick is itself followed by a silence longer than the timeout), then a probe arriving in pieces and an ordinary probe; evaluations = routed frames, probes and terminal checks judged; distinct = distinct (frame kind / fault kind / terminal kind) labels");
+    ctx.rule("scenarios = scripted inbound histories over a real connection to a Node with three recording processes and one registered name: sends to pids and names, exit and monitor notifications, replies to outstanding remote calls, and after each fault (tick, undecodable body, wrong marker byte, control term that is not a tuple / empty tuple / unknown kind, unknown pid, unknown name, reply to an unknown call, truncated payload, link control, messages for a process whose handler has crashed, payloads nested beyond the decoder's limit each followed by a legal payload of the deepest accepted nesting) a probe message that must be delivered with the connection still registered; then the peer closes / ends the stream inside a frame / sends an over-long length and the connection must be deregistered within 5 s; plus bursts of 150..2600 frames (around the 1000-slot mailbox) for a process whose handler is gated or slow, each of which must be delivered exactly once; plus quiet periods of 12.5 s (longer than the node's fixed 10 s read timeout) each followed by a tick (so a tick is itself followed by a silence longer than the timeout), then a probe arriving in pieces and an ordinary probe; evaluations = routed frames, probes and terminal checks judged; distinct = distinct (frame kind / fault kind / terminal kind) labels");
     ctx.assume("verdicts by delivery of the probe, not by timing; the quiet-period scenario runs concurrently with the others");
     let mut rng = Rng::derive(ctx.seed, 19, 1);
     let rt = tokio::runtime::Builder::new_multi_thread().worker_threads(8).enable_all().build().expect("runtime");
